@@ -38,7 +38,11 @@ IMPLS = [None, ("cpython", False), ("cpython", True), ("pypy", False)]
 def rp_pool(rnd, n_random):
     out = ["", "<empty>", ">=3", "<4", ">=4", "<2", ">=2.7,!=3.0.*,!=3.1.*", "<3.6||>=3.9", "==2.7.*||>=3.5",
            "==3.8.10", ">3.9.5,<3.10", ">=3.6,<3.6.1", "==3.1.*||==3.12.*", "~=3.8.2", ">=3.7,!=3.9.*",
-           ">=3.10.2,<3.10.5", "==3.*", "==2.*", "<3.0||>=3.3", ">=3.13", ">=3.8,<3.11"]
+           ">=3.10.2,<3.10.5", "==3.*", "==2.*", "<3.0||>=3.3", ">=3.13", ">=3.8,<3.11",
+           # pinned interpreters (min == max) in every spelling, and versions with an epoch: an epoch-1 line admits no
+           # 2.x / 3.x interpreter at all, an explicit epoch 0 changes nothing
+           "==3.9.2", ">=3.9.2,<=3.9.2", "==3.9", "==3.9.0", "==3.10.0.0", "==1!3.9.2", ">=1!3.9,<=1!3.9", "==1!3.9.*",
+           ">=1!3.8", "<1!3.0", "==0!3.9.2", ">=0!3.8,<0!3.11", "==3.9.2.post1", ">=3.9.2,<1!0"]
     for X in (2, 3):
         for Y in (0, 1, 9, 10, 11, 20):
             out += [f"=={X}.{Y}.*", f"<{X}.{Y}", f">={X}.{Y}", f"<{X}.{Y + 1}", f"<={X}.{Y}", f">{X}.{Y}",
